@@ -7,15 +7,27 @@
 //!
 //! One input line = one run (written by checks/c19.py from a seeded grid):
 //!   {"run":3,"rates":[50,50],"grate":80,"threads":4,"assign":"pinned"|"roam",
-//!    "pattern":"burst"|"steady"|"onoff"|"handoff","dur_ms":300,"pace_pct":60,
+//!    "pattern":"burst"|"steady"|"onoff"|"mixed"|"drainpace"|"handoff","dur_ms":300,"pace_pct":60,
 //!    "on_ms":40,"off_ms":60,"hogs":2,"server":false,"default_qps":1000,
 //!    "ref_den":4096,"max_ref":150,"seed":17}
 //!   rates[t]  max_qps handed to check_limit for tenant t (server rows: the tenant's
 //!             max_qps from the key file, 0 = "use the configured default")
 //!   grate     global limit, 0 = none
+//!   burst     every thread calls back to back;  steady: every thread is paced so that a tenant's threads
+//!             together issue pace_pct % of its rate;  mixed: even threads back to back, odd threads paced;
+//!   onoff     one call, then cycles of off_ms idle / on_ms back to back (an idle bucket must stop at its
+//!             capacity);  drainpace: back to back for on_ms, paced afterwards (refill must really arrive)
 //!   handoff   the last `hogs` threads are pinned to tenants 1.. and call only during the
 //!             first on_ms (they saturate the global bucket, then hand it over); tenant 0's
 //!             threads start after off_ms and call until the end of the run
+//!
+//!   holdgate  the schedule TLC found for RateLimit.tla with Strict = "window", forced on the real limiter
+//!             with the lock-operation gate of the harness' parking_lot (only the `hogs` holder threads
+//!             are gated): tenant 0's bucket is full and the global bucket has just been emptied through
+//!             tenant 1; each holder takes a tenant token, is refused by the global bucket and is stopped
+//!             before the lock of its refund for (hogs + 0.5) / rate seconds; shortly before the end of
+//!             that pause a free caller issues `hogs` calls of tenant 0 (the first refills the bucket to its
+//!             capacity next to the withheld tokens), the holders refund, the free caller issues a burst.
 //!
 //! One output line per run: the header (effective rate = burst per tenant, global
 //! rate = burst, callers per tenant) and two arrays of [tenant, thread, before_us,
@@ -27,9 +39,11 @@
 use kyrodb_engine::config::KyroDbConfig;
 use kyrodb_engine::rate_limiter::RateLimiter;
 use kyroverif::common::*;
+use parking_lot::verif;
 use rand::{Rng, SeedableRng};
 use rand_chacha::ChaCha8Rng;
 use serde_json::{json, Value};
+use std::sync::atomic::{AtomicBool, Ordering};
 use std::sync::{Arc, Barrier};
 use std::time::{Duration, Instant};
 
@@ -145,6 +159,168 @@ fn wait_until(base: &Instant, t_ns: u64) {
     }
 }
 
+/// Number of gated lock operations a globally refused `check_limit` performs before the lock of its refund.
+fn ops_before_refund() -> anyhow::Result<usize> {
+    verif::set_mode(verif::MODE_RECORD);
+    let h = std::thread::spawn(|| {
+        verif::register(9);
+        let scratch = RateLimiter::new_with_global(Some(1));
+        let first = scratch.check_limit("w", 5); // creates the bucket, takes the only global token
+        let _ = verif::take_log();
+        let second = scratch.check_limit("w", 5); // existing bucket, tenant token granted, global refuses, refund
+        let log = verif::take_log();
+        verif::unregister();
+        (first, second, log)
+    });
+    let (first, second, log) = h.join().expect("probe thread");
+    verif::set_mode(verif::MODE_OFF);
+    anyhow::ensure!(first && !second, "holdgate probe: unexpected verdicts {first} {second}");
+    let req: Vec<u8> = log.iter().filter(|e| e.tid == 9 && !e.done && e.op != 255).map(|e| e.op).collect();
+    let k = req.iter().rposition(|&op| op == verif::MX).ok_or_else(|| anyhow::anyhow!("holdgate probe: no mutex operation logged"))?;
+    anyhow::ensure!(k >= 3, "holdgate probe: refund lock is operation {k} of {:?}", req);
+    Ok(k)
+}
+
+fn run_holdgate(row: &Row) -> anyhow::Result<Value> {
+    let k = ops_before_refund()?;
+    let holders = row.hogs.max(1);
+    for _attempt in 0..4 {
+        let (limiter, eff, global) = make_limiter(row);
+        anyhow::ensure!(eff.len() == 2 && global.is_some(), "holdgate needs two tenants and a global limit");
+        let limiter = Arc::new(limiter);
+        let names: Arc<Vec<String>> = Arc::new((0..2).map(|t| format!("tenant_{}_{}", row.run, t)).collect());
+        let eff = Arc::new(eff);
+        let rate = eff[0] as u64;
+        let hold = Duration::from_nanos((2 * holders as u64 + 1) * 500_000_000 / rate.max(1));
+        let base = Instant::now();
+        let ns = move || base.elapsed().as_nanos() as u64;
+        let mut recs: Vec<(usize, Rec)> = Vec::new(); // (thread, call)
+        let call = |thr: usize, t: usize, recs: &mut Vec<(usize, Rec)>| -> bool {
+            let b = ns();
+            let ok = limiter.check_limit(&names[t], eff[t]);
+            let a = ns();
+            if ok {
+                recs.push((thr, Rec { tenant: t as u32, b, a, adm: true }));
+            }
+            ok
+        };
+        // the free caller (thread 1) creates tenant 0's bucket, then everything refills to capacity
+        let mut calls = 1u64;
+        let created = call(1, 0, &mut recs);
+        anyhow::ensure!(created, "holdgate: first call refused");
+        std::thread::sleep(Duration::from_nanos(1_500_000_000 / rate.max(1)) + Duration::from_millis(5));
+        // gate: holder i passes k lock operations, then waits for the timer thread's single operation
+        let mut sched = Vec::new();
+        for i in 0..holders {
+            for _ in 0..k {
+                sched.push(verif::Grant { tid: 10 + i as u32, blocks: false });
+            }
+        }
+        sched.push(verif::Grant { tid: 99, blocks: false });
+        let total = sched.len();
+        verif::install_schedule(sched);
+        verif::set_mode(verif::MODE_GATE);
+        let ctl = std::thread::spawn(move || verif::controller(hold * 2 + Duration::from_secs(5)));
+        let go = Arc::new(AtomicBool::new(false));
+        let mut hs = Vec::new();
+        for i in 0..holders {
+            let (limiter, names, eff, go) = (Arc::clone(&limiter), Arc::clone(&names), Arc::clone(&eff), Arc::clone(&go));
+            hs.push(std::thread::spawn(move || {
+                let mut mine: Vec<Rec> = Vec::new();
+                let mut n = 0u64;
+                if i == 0 {
+                    // empty the global bucket through tenant 1 (not gated: this thread is not registered yet)
+                    let mut misses = 0;
+                    while misses < 3 {
+                        let b = base.elapsed().as_nanos() as u64;
+                        let ok = limiter.check_limit(&names[1], eff[1]);
+                        let a = base.elapsed().as_nanos() as u64;
+                        n += 1;
+                        if ok {
+                            mine.push(Rec { tenant: 1, b, a, adm: true });
+                            misses = 0;
+                        } else {
+                            misses += 1;
+                        }
+                    }
+                    go.store(true, Ordering::SeqCst);
+                } else {
+                    while !go.load(Ordering::SeqCst) {
+                        std::hint::spin_loop();
+                    }
+                }
+                verif::register(10 + i as u32);
+                let b = base.elapsed().as_nanos() as u64;
+                let ok = limiter.check_limit(&names[0], eff[0]);
+                let a = base.elapsed().as_nanos() as u64;
+                verif::unregister();
+                mine.push(Rec { tenant: 0, b, a, adm: ok });
+                (mine, n + 1)
+            }));
+        }
+        let timer = std::thread::spawn(move || {
+            let t0 = Instant::now();
+            while verif::gate_status().0 < total - 1 && t0.elapsed() < Duration::from_secs(4) {
+                std::thread::sleep(Duration::from_micros(50));
+            }
+            std::thread::sleep(hold);
+            verif::register(99);
+            let dummy = parking_lot::Mutex::new(0u8);
+            *dummy.lock() += 1;
+            verif::unregister();
+        });
+        // free caller: wait until every holder is stopped in front of its refund
+        let t0 = Instant::now();
+        while verif::gate_status().0 < total - 1 && t0.elapsed() < Duration::from_secs(4) {
+            std::thread::sleep(Duration::from_micros(50));
+        }
+        let in_hold = verif::gate_status().0 >= total - 1;
+        std::thread::sleep(hold.saturating_sub(Duration::from_millis(3)));
+        for _ in 0..holders {
+            call(1, 0, &mut recs);
+            calls += 1;
+        }
+        let mut refused_holders = 0;
+        let mut sample: Vec<(usize, Rec)> = Vec::new();
+        for (i, h) in hs.into_iter().enumerate() {
+            let (mine, n) = h.join().expect("holder thread");
+            calls += n;
+            for r in mine {
+                if r.adm {
+                    recs.push((2 + i, r));
+                } else {
+                    refused_holders += 1;
+                    sample.push((2 + i, r));
+                }
+            }
+        }
+        timer.join().expect("timer thread");
+        for _ in 0..(rate + 3) {
+            call(1, 0, &mut recs);
+            calls += 1;
+        }
+        verif::release_all();
+        verif::set_mode(verif::MODE_OFF);
+        let _ = ctl.join();
+        let _ = verif::take_log();
+        if !in_hold || refused_holders != holders {
+            continue; // a global token slipped in before a holder's global consume: not the schedule we want
+        }
+        let mut adm: Vec<(u64, u64, u32, usize)> = recs.iter().map(|(th, r)| (r.a / 1000 + 1, r.b / 1000, r.tenant + 1, *th)).collect();
+        adm.sort();
+        let enc = |v: &Vec<(u64, u64, u32, usize)>| -> Vec<Value> { v.iter().map(|e| json!([e.2, e.3, e.1, e.0])).collect() };
+        let _ = sample; // the holders' refusals overlap the free caller's calls; nothing to judge there
+        return Ok(json!({
+            "run": row.run, "rate": *eff, "burst": *eff, "grate": global.unwrap_or(0), "gburst": global.unwrap_or(0),
+            "conc": [holders + 1, 1], "nt": 2, "threads": holders + 1, "pattern": row.pattern, "server": row.server,
+            "calls": calls, "refused": calls - adm.len() as u64, "tokens_end": [Value::Null, Value::Null],
+            "gate": {"ops_before_refund": k, "hold_us": hold.as_micros() as u64, "holders_refused": refused_holders},
+            "adm": enc(&adm), "ref": Vec::<Value>::new(),
+        }));
+    }
+    anyhow::bail!("holdgate: the holders were not refused by the global bucket in 4 attempts")
+}
+
 fn run_row(row: &Row) -> Value {
     let (limiter, eff, global) = make_limiter(row);
     let limiter = Arc::new(limiter);
@@ -203,24 +379,38 @@ fn run_row(row: &Row) -> Value {
             // steady: this thread's share of pace_pct % of the tenant's rate
             let interval = (my_conc as u128 * 100_000_000_000u128 / (eff[my].max(1) as u128 * row.pace_pct as u128)) as u64;
             let mut k: u64 = 0;
-            let period = (row.on_ms + row.off_ms) * 1_000_000;
+            let period = ((row.on_ms + row.off_ms) * 1_000_000).max(1);
+            let on_ns = row.on_ms * 1_000_000;
+            let off_ns = row.off_ms * 1_000_000;
+            let mut first = true;
             loop {
+                // paced call number k of a phase that began at t0 (small seeded jitter against phase locking)
+                let pace = |t0: u64, k: &mut u64, rng: &mut ChaCha8Rng| {
+                    let j = if interval > 16 { rng.gen_range(0..interval / 8) } else { 0 };
+                    wait_until(&base, t0 + *k * interval + j);
+                    *k += 1;
+                };
                 match row.pattern.as_str() {
-                    "steady" => {
-                        // small seeded jitter so that threads do not stay phase-locked
-                        let j = if interval > 16 { rng.gen_range(0..interval / 8) } else { 0 };
-                        wait_until(&base, start + k * interval + j);
-                        k += 1;
+                    "steady" => pace(start, &mut k, &mut rng),
+                    // even threads call back to back, odd threads are paced
+                    "mixed" if i % 2 == 1 => pace(start, &mut k, &mut rng),
+                    // back to back for on_ms (drains the burst), paced afterwards
+                    "drainpace" => {
+                        if base.elapsed().as_nanos() as u64 >= start + on_ns {
+                            pace(start + on_ns, &mut k, &mut rng)
+                        }
                     }
-                    "onoff" => {
+                    // one call (creates the bucket, full), then cycles of off_ms idle / on_ms back to back
+                    "onoff" if !first => {
                         let now = base.elapsed().as_nanos() as u64;
-                        let ph = (now - start) % period.max(1);
-                        if ph >= row.on_ms * 1_000_000 {
-                            wait_until(&base, now + (period - ph));
+                        let ph = (now - start) % period;
+                        if ph < off_ns {
+                            wait_until(&base, now + (off_ns - ph));
                         }
                     }
                     _ => {}
                 }
+                first = false;
                 let t = if row.roam && !handoff { rng.gen_range(0..nt) } else { my };
                 let b = base.elapsed().as_nanos() as u64;
                 if b >= my_end {
@@ -299,7 +489,7 @@ fn main() -> anyhow::Result<()> {
         for &r in &row.rates {
             anyhow::ensure!(row.server || r > 0, "rate must be > 0");
         }
-        let v = run_row(row);
+        let v = if row.pattern == "holdgate" { run_holdgate(row)? } else { run_row(row) };
         calls += v["calls"].as_u64().unwrap_or(0);
         admitted += v["adm"].as_array().map(|a| a.len() as u64).unwrap_or(0);
         out.emit(&v);
